@@ -19,6 +19,8 @@ pub struct Req {
     pub pre: Vec<u32>,
     pub post: Vec<u32>,
     pub nf_vs: Option<u32>,
+    /// Face::set_points_per_em (the AAT 'trak' table is applied only with a point size)
+    pub ptem: Option<u32>,
 }
 
 #[derive(Clone, Debug, PartialEq, Eq)]
@@ -154,7 +156,10 @@ pub fn fmt_req(req: &Req) -> String {
     let t: Vec<String> = req.text.iter().map(|(c, k)| format!("{:X}:{}", c, k)).collect();
     let pre: Vec<String> = req.pre.iter().map(|c| format!("{:X}", c)).collect();
     let post: Vec<String> = req.post.iter().map(|c| format!("{:X}", c)).collect();
-    let nfvs = match req.nf_vs { Some(g) => format!(" nfvs={}", g), None => String::new() };
+    let mut nfvs = match req.nf_vs { Some(g) => format!(" nfvs={}", g), None => String::new() };
+    if let Some(p) = req.ptem {
+        nfvs.push_str(&format!(" ptem={}", p));
+    }
     format!(
         "text={} dir={} script={} lang={} feats={} flags={} level={} pre={} post={}{}",
         t.join(","),
@@ -201,6 +206,7 @@ pub fn parse_req(s: &str) -> Req {
             "flags" => r.flags = v.parse().unwrap_or(0),
             "level" => r.level = v.parse().unwrap_or(0),
             "nfvs" => r.nf_vs = v.parse().ok(),
+            "ptem" => r.ptem = v.parse().ok(),
             "pre" => {
                 if v != "-" {
                     r.pre = v.split(',').filter_map(|x| u32::from_str_radix(x, 16).ok()).collect()
